@@ -512,3 +512,110 @@ def rule_frame_and_typestate(ctx, rules=('R06.f', 'R06.s', 'R06.r', 'R06.c')):
                             'R06.c': 'result shares no memory with the object'}[rid]
                     ctx.holds(rid, construct, '%s: %s' % (valname(val), what), f.loc(), key=valname(val))
     ctx.floor('R06.s', n, 11 * 8, 'function x flag x space-valuation runs')
+
+
+# ---------------------------------------------------------------------------------------------
+# R06.h  a calculate function called again after the object was re-solved
+# ---------------------------------------------------------------------------------------------
+def _run_history(prog, fname, val, mode, preset):
+    """call f(PRISM); give the object new contents the way a re-solve does (cost() re-binds totalCorr/directCorr to new
+    MatrixArrays; their data are new arrays); call f(PRISM) again"""
+    ip = Interp(prog)
+    ip.preset = list(preset)
+    after_solve = {'totalCorr': 'Real', 'directCorr': 'Fourier', 'omega': 'Fourier'}
+    PR = W.prism_world(ip, after_solve)
+    f = finfo(prog, fname)
+    kw = {k: Const(v) for k, v in val.items()}
+    r1 = None
+    if mode != 'fresh':
+        r1 = ip.call(ip.make_func(f), [PR], dict(kw))
+    types = PR.attrs['sys'].attrs['types']
+    for nm, sym in W.SPATIAL:
+        if nm == 'omega':
+            continue            # omega is fixed at construction; a re-solve does not touch it
+        sym2 = sym + '2'
+        ip.declare(sym2, 'tensor', symmetric=True)
+        sp = after_solve[nm]
+        term = N.sym(sym2) if sp == 'Fourier' else N.fn('toR', N.sym(sym2))
+        if mode in ('rebound', 'fresh'):
+            # (the reference: an object that holds the new contents and on which nothing was called before)
+            PR.attrs[nm] = W.matrixarray(ip, sym2, sp, 'PRISM.' + nm, term=term, types=types)
+        else:                   # the same MatrixArray objects, new contents (in-place update of .data)
+            ma = PR.attrs[nm]
+            ma.attrs['data'].t = term
+            ma.attrs['space'] = W.SPACE[sp]
+    r2 = ip.call(ip.make_func(f), [PR], dict(kw))
+    return ip, {'PRISM': PR, 'res': r2, 'first': r1}
+
+
+def _rename_back(t):
+    ren = {sym + '2': sym for _, sym in W.SPATIAL}
+
+    def leaf(a):
+        if a[0] == 'sym' and a[1] in ren:
+            return N.sym(ren[a[1]])
+        if a[0] == 'fn' and all(isinstance(k, str) for k in a[2:]) and any(k in ren for k in a[2:]):
+            return N.NF.atom((a[0], a[1]) + tuple(ren.get(k, k) for k in a[2:]))   # ent(HF2, a, b): array named by string
+        return None
+    return N.transform(t, leaf)
+
+
+def _hist_key(ip, res, rename):
+    if isinstance(res, Obj) and res.isa('MatrixArray'):
+        t = ma_term(ip, res)
+        if rename:
+            t = _rename_back(t)
+        return ('MA', N.show(canon(ip, t)), getattr(res.attrs.get('space'), 'v', None))
+    if isinstance(res, Obj) and res.isa('PairTable'):
+        out = []
+        for rec in pt_records(ip, res):
+            la, lb = rec['labels']
+            t = rec['term']
+            if rename:
+                t = _rename_back(t)
+            t = relabel(t, {la: '@a', lb: '@b'}, ip.symmetric)
+            out.append((N.show(t), rec['coverage']))
+        return ('PT', tuple(out))
+    raise Unsupported('unexpected result %r' % (res,))
+
+
+def rule_resolve_history(ctx, rule='R06.h'):
+    """After the object has been re-solved (new totalCorr / directCorr, either as new MatrixArray objects or as new
+    contents of the old ones) every calculate function returns what it returns on a fresh object with those contents:
+    nothing computed during an earlier call (a cached pair correlation, a remembered structure factor) is re-used."""
+    n = 0
+    for fname in FUNCS:
+        f = finfo(ctx.prog, fname)
+        construct = 'pyPRISM.calculate.%s' % fname
+        try:
+            vals = valuations(f)
+        except Unsupported as e:
+            ctx.undecided(rule, construct, str(e), f.loc())
+            continue
+        for val in vals:
+            tag = valname(val)
+            try:
+                fresh = explore(lambda preset: _run_history(ctx.prog, fname, val, 'fresh', preset))
+                keys_f = {_hist_key(ip, r['res'], False) for d, ip, r in fresh}
+                bad = []
+                paths = 0
+                for mode in ('rebound', 'inplace'):
+                    for d, ip, r in explore(lambda preset: _run_history(ctx.prog, fname, val, mode, preset)):
+                        paths += 1
+                        k2 = _hist_key(ip, r['res'], False)
+                        if k2 not in keys_f:
+                            bad.append('after a re-solve (%s) the call returns %s; a fresh object with the new contents gives %s'
+                                       % ('new MatrixArray objects' if mode == 'rebound' else 'same objects, new contents',
+                                          str(k2)[:220], str(sorted(keys_f)[0])[:220]))
+                        if r['res'] is r.get('first'):
+                            bad.append('the second call returns the object returned by the first call')
+            except (Unsupported, Raised) as e:
+                ctx.undecided(rule, construct, '%s: %s' % (tag, e), f.loc())
+                continue
+            n += 1
+            if bad:
+                ctx.violation(rule, construct, 'resolve-history:' + tag, '%s: %s' % (tag, bad[0]), f.loc())
+            else:
+                ctx.holds(rule, construct, '%s: called again after a re-solve, returns the value of a fresh object (%d paths)' % (tag, paths),
+                          f.loc(), key=tag)
+    ctx.floor(rule, n, 11, 'calculate function x flag valuation re-solve histories')
